@@ -23,7 +23,12 @@ def gen_stallwatch(r, tier):
         if r.chance(0.5):
             lo, hi = r.range(0, 200), r.range(201, 255)
         avg0 = r.pick([0.0, 1.0, 300.0, 1000.0, 5000.0, float(r.range(0, 32768))])
-        toks = [f"kind={kind}", "ns=1", f"win={n}", f"map={ident}", "loop=direct m=-", "resp=id", "pwm=0", "origmode=2", "origpwm=0"]
+        # the register need not read back what fan2go wrote: a driver that quantises written values under a 1:1 map, or a
+        # third party (BIOS, another daemon) rewriting the register after every write - the REQUEST stays unchanged, so
+        # the stall must still be noticed and pushed (seed C10d)
+        mismatch = r.pick(["none", "none", "none", "quant", "interloper"]) if kind != "cmd" else "none"
+        resp = "id" if mismatch != "quant" else f"q:{r.pick([2, 5, 16])}"
+        toks = [f"kind={kind}", "ns=1", f"win={n}", f"map={ident}", "loop=direct m=-", f"resp={resp}", "pwm=0", "origmode=2", "origpwm=0"]
         if kind == "hwmon":
             toks += [f"minp={lo}", f"maxp={hi}", f"startp={lo}", f"avg={fx(avg0)}", "mode=2"]
         else:
@@ -51,8 +56,11 @@ def gen_stallwatch(r, tier):
         budget = min(budget, 1400)
         if not capped:
             ops[case_idx] = "#case stallwatch full=1"
+        foreign = r.range(0, 255)
         for _ in range(budget):
             ops.append("w.poll")
+            if mismatch == "interloper":
+                ops.append(f"w.dev pwm={foreign}")
             now += 200_000_000
             ops.append(f"w.cycle curve={curve} now={now}")
     return ops
